@@ -139,6 +139,7 @@ func VerifC01Chain() {
 	proofKind := vChoose("proof", 3)
 	var proof *pb.Proof
 	var secret, final []byte
+	badSecretLen := false
 	lastPayload := cat(blk[m], le32(alg[m]), key[m], sig[m])
 	switch proofKind {
 	case 0:
@@ -147,6 +148,15 @@ func VerifC01Chain() {
 		s := vInt("secret-sel")
 		vAssume(vAnd(s >= 0, s < len(pool)))
 		secret = selBytes(s, pool)
+		// a next secret is a 32-byte seed; anything of another length (for instance a 64-byte
+		// expanded key seed||public) is not a proof of knowledge and must be rejected
+		if n := [...]int{32, 64, 33, 0}[vChoose("secret-len", 4)]; n != 32 {
+			secret = vBytes("oddsecret", n)
+			badSecretLen = true
+			vLabel("next secret of length != 32")
+		} else {
+			vLabel("proof=next secret")
+		}
 		proof = &pb.Proof{Content: &pb.Proof_NextSecret{NextSecret: secret}}
 	case 1:
 		pool := [][]byte{sealed.container.Proof.GetFinalSignature()}
@@ -158,8 +168,10 @@ func VerifC01Chain() {
 		vAssume(vAnd(s >= 0, s < len(pool)))
 		final = selBytes(s, pool)
 		proof = &pb.Proof{Content: &pb.Proof_FinalSignature{FinalSignature: final}}
+		vLabel("proof=seal signature")
 	default:
 		proof = &pb.Proof{}
+		vLabel("proof=absent")
 	}
 	// verifier key: honest root, attacker, or any key
 	K := selBytes(vChoose("verify-key", 3), [][]byte{w.rootPub, vPub(attackerSeed), vWide("anyroot", 32)})
@@ -174,7 +186,11 @@ func VerifC01Chain() {
 	}
 	switch proofKind {
 	case 0:
-		spec = vAnd(spec, vBytesEq(vPub(secret), cur))
+		if badSecretLen {
+			spec = false
+		} else {
+			spec = vAnd(spec, vBytesEq(vPub(secret), cur))
+		}
 	case 1:
 		spec = vAnd(spec, vVerify(cur, lastPayload, final))
 	default:
